@@ -34,6 +34,8 @@ func VerifH_c08_l2() {
 		switch a {
 		case "$K":
 			args[i] = "k"
+		case "$F":
+			args[i] = []string{"1.5", "inf", "nan"}[vChoice("f", 3)]
 		case "$S":
 			args[i] = vStringN("s", 1)
 		case "$I":
@@ -87,7 +89,7 @@ var vC08Property = [][]string{
 	{"SDIFFSTORE", "k5", "k4", "$K"}, {"BITOP", "OR", "k5", "$K", "k2"}, {"BITOP", "NOT", "$K", "k2"}, {"DEL", "$K", "k2"}, {"EXISTS", "$K", "k2", "$K"},
 	{"GETSET", "$K", "n"}, {"GETDEL", "$K"}, {"SETNX", "$K", "n"}, {"SET", "$K", "n", "GET"}, {"SORT", "$K", "ALPHA", "STORE", "k5"}, {"LINSERT", "$K", "BEFORE", "e1", "n"},
 	{"HSETNX", "$K", "f9", "n"}, {"LREM", "$K", "0", "e1"}, {"SETRANGE", "$K", "1", "zz"}, {"GETEX", "$K", "PERSIST"}, {"EXPIRE", "$K", "100", "NX"}, {"LMPOP", "2", "$K", "k3", "LEFT"},
-	{"SINTERCARD", "2", "$K", "k4"}, {"MGET", "$K", "k2"}, {"DECRBY", "$K", "3"}, {"HDEL", "$K", "f1", "f2"}, {"SREM", "$K", "m1", "m2"}, {"LTRIM", "$K", "1", "-1"},
+	{"SINTERCARD", "2", "$K", "k4"}, {"MGET", "$K", "k2"}, {"TOUCH", "$K", "k5"}, {"TOUCH", "k5", "$K"}, {"UNLINK", "$K", "k5"}, {"DECRBY", "$K", "3"}, {"HDEL", "$K", "f1", "f2"}, {"SREM", "$K", "m1", "m2"}, {"LTRIM", "$K", "1", "-1"},
 }
 
 var vC08Interferers = [][]string{
@@ -152,11 +154,15 @@ func vC08Interleave(table [][]string) {
 		kv = "ab"
 	}
 	t := table[vChoice("cmd", len(table))]
+	// commands that draw random numbers have no single serial outcome to compare with
+	vAssume(t[0] != "RANDOMKEY" && t[0] != "SRANDMEMBER" && t[0] != "HRANDFIELD")
 	args := make([]string, len(t))
 	for i, a := range t {
 		switch a {
 		case "$K":
 			args[i] = "k"
+		case "$F":
+			args[i] = []string{"1.5", "inf", "nan"}[vChoice("f", 3)]
 		case "$S":
 			args[i] = "n"
 		case "$I":
